@@ -114,9 +114,18 @@ static int check_kept(void) {
 static size_t msz, mapsz; static long pg;
 static unsigned char *arena[2];     /* two page-aligned mappings; the region sits at a varying offset inside */
 static int offs[] = {64, 68, 72, 80, 4096, 65, 4100};   /* 4-, 8-, 16-byte, page and odd alignments (x86 tolerates) */
-static unsigned char *region_at(int which, int variant) { return arena[which] + offs[variant % 5]; }
-static void canary_fill(unsigned char *r) { memset(r - 64, 0xC7, 64); memset(r + msz, 0xC7, 64); }
-static int canary_ok(unsigned char *r) { for (int j = 0; j < 64; j++) if (r[-64 + j] != 0xC7 || r[msz + j] != 0xC7) return 0; return 1; }
+/* Each mapping ends in one PROT_NONE page.  Even variants put the region flush against that guard page, so even a READ of
+ * one byte past the user-supplied region faults; odd variants use the offset table (with a canary behind the region). */
+static int flush_end(int variant) { return (variant % 2) == 0; }
+static unsigned char *region_at(int which, int variant) {
+    if (flush_end(variant)) return arena[which] + mapsz - msz;
+    return arena[which] + offs[(variant / 2) % 5];
+}
+static void canary_fill(unsigned char *r, int variant) { memset(r - 64, 0xC7, 64); if (!flush_end(variant)) memset(r + msz, 0xC7, 64); }
+static int canary_ok(unsigned char *r, int variant) {
+    for (int j = 0; j < 64; j++) if (r[-64 + j] != 0xC7 || (!flush_end(variant) && r[msz + j] != 0xC7)) return 0;
+    return 1;
+}
 
 int main(int argc, char **argv) {
     if (argc < 8) return 2;
@@ -147,10 +156,11 @@ int main(int argc, char **argv) {
     pg = sysconf(_SC_PAGESIZE);
     mapsz = ((msz + 8192 + 128) / (size_t) pg + 2) * (size_t) pg;
     for (int w = 0; w < 2; w++) {
-        arena[w] = mmap(NULL, mapsz, PROT_READ | PROT_WRITE, MAP_PRIVATE | MAP_ANONYMOUS, -1, 0);
+        arena[w] = mmap(NULL, mapsz + (size_t) pg, PROT_READ | PROT_WRITE, MAP_PRIVATE | MAP_ANONYMOUS, -1, 0);
         if (arena[w] == MAP_FAILED) return 2;
+        mprotect(arena[w] + mapsz, (size_t) pg, PROT_NONE);          /* guard page behind the arena */
     }
-    int cur = 0, variant = 0;
+    int cur = 0, variant = 0, curvariant = 0;
     unsigned char *mem = NULL;
     qhasharr_t *T = NULL;
     char line[256], op[32];
@@ -170,6 +180,7 @@ int main(int argc, char **argv) {
             vh_seg++; vh_step = 0;
             mark = vh_ledger_mark();
             cur = 0; variant = (int) vh_seg;
+            curvariant = variant;
             mem = region_at(cur, variant);
             memset(arena[cur], 0xC7, mapsz);
             T = qhasharr(mem, msz);
@@ -214,7 +225,7 @@ int main(int argc, char **argv) {
             alarm(0);
             if (v) { memset(v, 0xA5, (size_t) len); vh_free(v); }
             if (kb) { memset(kb, 0xA5, (size_t) keylen[a]); vh_free(kb); }
-            int gok = canary_ok(mem);
+            int gok = canary_ok(mem, curvariant);
             vh_bprintf(&b, "{\"op\":\"%s\",\"a\":%d,\"vid\":%d,\"len\":%d,\"inj\":%ld,\"nfail\":%ld,\"ok\":%s,\"err\":%d,\"rv\":%d,\"rsz\":%zu,\"guard_ok\":%s,",
                        op, a, vid, len, inject ? kk : 0L, nfail, vh_bool(ok), e, rv, rsz, vh_bool(gok));
             /* observations through the handle that did the mutation ... */
@@ -227,7 +238,7 @@ int main(int argc, char **argv) {
             unsigned char *copy = region_at(other, variant);
             memset(arena[other], 0xC7, mapsz);
             memcpy(copy, mem, msz);
-            canary_fill(copy);
+            canary_fill(copy, variant);
             mprotect(arena[cur], mapsz, PROT_NONE);
             qhasharr_t *T2 = qhasharr(copy, 0);
             vh_bprintf(&b, ",");
@@ -239,7 +250,7 @@ int main(int argc, char **argv) {
             vh_overlap_copies = 0; vh_badfree = 0;
             if ((vh_step % 3) == 0 && T2) {
                 /* every third step the roles swap: operation continues on the copy through the attached handle */
-                T->free(T); T = T2; cur = other; mem = copy;
+                T->free(T); T = T2; cur = other; mem = copy; curvariant = variant;
             } else if (T2) T2->free(T2);
             if (!inject || nfail == 0 || ok ) break;
         }
